@@ -270,3 +270,10 @@ func plus(a, b string) string {
 	}
 	return "(+ " + a + " " + b + ")"
 }
+
+func minus(a, b string) string {
+	if b == "0" {
+		return a
+	}
+	return "(- " + a + " " + b + ")"
+}
